@@ -14,6 +14,7 @@
 #include <unistd.h>
 #include <fcntl.h>
 #include <errno.h>
+#include <sys/wait.h>
 #include "mjson.h"
 #include "vclock.h"
 #include "lockrec.h"
@@ -26,7 +27,9 @@ static struct event_base *base;
 static struct event *ev[NEV + 1];
 static int alloc[NEV + 1], finreq[NEV + 1];
 static jval *script[NEV + 1];
-static int pipes[3][2];
+static int pipes[3][2], fed[3];
+static int in_child;
+static char *child_json;
 static const struct timeval *ctv[3];
 static int64_t tick_ns;
 static int nprio, maxiter;
@@ -293,8 +296,8 @@ static int exec_op_inner(jval *op, int incb)
 	if (!strcmp(a, "break")) return event_base_loopbreak(base);
 	if (!strcmp(a, "cont")) return event_base_loopcontinue(base);
 	if (!strcmp(a, "maxclr")) { event_base_get_max_events(base, (unsigned)j_int(op, "n", 0), 1); return 0; }
-	if (!strcmp(a, "feed")) { char c = 'x'; return write(pipes[e][1], &c, 1) == 1 ? 0 : -1; }
-	if (!strcmp(a, "drain")) { char b[64]; while (read(pipes[e][0], b, sizeof b) > 0) ; return 0; }
+	if (!strcmp(a, "feed")) { char c = 'x'; fed[e] = 1; return write(pipes[e][1], &c, 1) == 1 ? 0 : -1; }
+	if (!strcmp(a, "drain")) { char b[64]; fed[e] = 0; while (read(pipes[e][0], b, sizeof b) > 0) ; return 0; }
 	if (!strcmp(a, "raise")) { raise(SIGUSR1); return 0; }
 	if (!strcmp(a, "adv")) { vt_now_ns += j_int(op, "t", 0) * tick_ns; return 0; }
 	if (!strcmp(a, "script")) { script[e] = j_get(op, "s"); return 0; }
@@ -392,6 +395,7 @@ static void run_scenario(jval *sc)
 	vt_would_block = 0;
 	vt_wait_policy = wait_policy;
 	vt_pre_wait = pre_wait;
+	fed[1] = fed[2] = 0;
 	memset(alloc, 0, sizeof alloc); memset(finreq, 0, sizeof finreq);
 	memset(script, 0, sizeof script); memset(ev, 0, sizeof ev);
 	ctv[1] = ctv[2] = NULL; nwatch = 0;
@@ -430,7 +434,60 @@ static void run_scenario(jval *sc)
 	for (k = 0; h && k < h->n; k++) {
 		jval *op = h->items[k];
 		int isloop = !strcmp(j_str(op, "a", ""), "loop");
-		int r = exec_op(op, 0);
+		int r;
+		if (!strcmp(j_str(op, "a", ""), "fork") && !in_child) {
+			/* C11: the child re-initialises the base and runs the rest of the scenario first
+			 * (its observations come back through a pipe); then the parent continues. */
+			int pp[2]; pid_t pid; char *cbuf = NULL; size_t clen = 0, ccap = 0; ssize_t n; int st;
+			if (pipe(pp) < 0) { perror("pipe"); exit(3); }
+			fflush(NULL);
+			pid = fork();
+			if (pid == 0) {
+				FILE *co = fdopen(pp[1], "w");
+				close(pp[0]);
+				in_child = 1;
+				out = co;
+				r = event_reinit(base);
+				fprintf(out, "[");
+				print_obs(r, 0);
+				event_base_assert_ok_(base);
+				for (k = k + 1; k < h->n; k++) {
+					jval *op2 = h->items[k];
+					int isl = !strcmp(j_str(op2, "a", ""), "loop");
+					int r2 = exec_op(op2, 0);
+					fputc(',', out);
+					if (!base) { fprintf(out, "{\"r\":%d,\"cb\":[%s]}", r2, cblog); break; }
+					print_obs(r2, isl);
+					event_base_assert_ok_(base);
+				}
+				fprintf(out, "]");
+				fflush(out);
+				_exit(0);
+			}
+			close(pp[1]);
+			for (;;) {
+				if (clen + 4096 > ccap) { ccap = ccap ? ccap * 2 : 65536; cbuf = realloc(cbuf, ccap); }
+				n = read(pp[0], cbuf + clen, 4096);
+				if (n <= 0) break;
+				clen += (size_t)n;
+			}
+			close(pp[0]);
+			waitpid(pid, &st, 0);
+			if (cbuf) cbuf[clen] = 0;
+			if (!WIFEXITED(st) || WEXITSTATUS(st) != 0 || !clen) {
+				child_json = strdup("{\"crash\":\"child died\"}");
+			} else child_json = strdup(cbuf);
+			free(cbuf);
+			/* undo what the child did to the pipes we share with it */
+			{ int e; for (e = 1; e <= 2; e++) { char b[64], c = 'x'; while (read(pipes[e][0], b, sizeof b) > 0) ; if (fed[e]) { if (write(pipes[e][1], &c, 1) != 1) perror("write"); } } }
+			r = 0;
+			if (k) fputc(',', out);
+			lockrec_api_enter("observe");
+			print_obs(r, 0);
+			lockrec_api_return("observe");
+			continue;
+		}
+		r = exec_op(op, 0);
 		if (k) fputc(',', out);
 		if (!base) { fprintf(out, "{\"r\":%d,\"cb\":[%s]}", r, cblog); break; }
 		lockrec_api_enter("observe");
@@ -438,7 +495,9 @@ static void run_scenario(jval *sc)
 		event_base_assert_ok_(base);
 		lockrec_api_return("observe");
 	}
-	fprintf(out, "],\"allocs\":%ld}\n", af_total);
+	fprintf(out, "],\"allocs\":%ld", af_total);
+	if (child_json) { fprintf(out, ",\"child\":%s", child_json); free(child_json); child_json = NULL; }
+	fprintf(out, "}\n");
 	/* teardown (the line is only emitted afterwards, so that a crash in the
 	 * teardown is attributed to this scenario) */
 	af_countdown = 0;
